@@ -59,21 +59,25 @@ def _alarm(signum, frame):
     raise WallTimeout()
 
 
-def run_one(mod, scn, wall=60.0, debug=False):
-    """execute one scenario with a wall-clock guard; never raises"""
-    signal.signal(signal.SIGALRM, _alarm)
-    signal.setitimer(signal.ITIMER_REAL, wall)
+def run_one(mod, scn, wall=120.0, debug=False):
+    """execute one scenario with a CPU-time guard; never raises"""
+    # the guard counts this process's CPU time, not wall-clock time: a
+    # loaded machine must not turn a long scenario into a harness error
+    # (a scenario that blocks without using CPU is caught by the batch
+    # watchdog instead)
+    signal.signal(signal.SIGPROF, _alarm)
+    signal.setitimer(signal.ITIMER_PROF, wall)
     try:
         try:
             return mod.execute(scn, debug=debug) if debug else mod.execute(scn)
         finally:
-            signal.setitimer(signal.ITIMER_REAL, 0)
+            signal.setitimer(signal.ITIMER_PROF, 0)
     except WallTimeout:
         _force_world_close()
         return {'violations': [], 'digest': 'walltimeout', 'nontrivial': False,
                 'probes': {}, 'faults': {}, 'states': [], 'steps': 0,
                 'sim_s': 0.0, 'inconclusive': True,
-                'harness_errors': ['wall-clock timeout (%ss) executing '
+                'harness_errors': ['CPU-time guard (%ss) hit executing '
                                    'scenario' % wall]}
     except BaseException as e:
         _force_world_close()
